@@ -34,7 +34,7 @@ def filled(spec: NetSpec, val: dict, supply, fill: float):
     return {k: (list(v) if k in supply else [float(fill)] * len(v)) for k, v in val.items()}
 
 
-def np_inputs(built: Built, val: dict, scalar_shape="1d", supply=None):
+def np_inputs(built: Built, val: dict, scalar_shape="1d", supply=None, integer=False):
     """init_conditions for the NumPy engine.  Link vectors have shape (N,); origin and
     destination scalars are 0-d ('0d') or length-1 ('1d') arrays.  With `supply` only those (key, var) pairs are
     given (an element none of whose variables is supplied does not appear at all)."""
@@ -43,7 +43,10 @@ def np_inputs(built: Built, val: dict, scalar_shape="1d", supply=None):
         if supply is not None and (key, var) not in supply:
             continue
         el = built.obj[key]
-        if key.startswith("L"):
+        if integer and all(abs(x) != INF and float(x).is_integer() for x in lst):
+            # caller arrays of INTEGER dtype (whole-number values)
+            arr = np.array([int(x) for x in lst]) if (key.startswith("L") or scalar_shape != "0d") else np.array(int(lst[0]))
+        elif key.startswith("L"):
             arr = np.array(lst, dtype=float)
         elif scalar_shape == "0d":
             arr = np.array(float(lst[0]))
@@ -69,12 +72,12 @@ def to_lists(nxt: dict) -> dict:
 
 
 def np_step(spec: NetSpec, val: dict, P: dict, opts: dict = None, scalar_shape="1d", built: Built = None,
-            engine=None, supply=None, positional=False):
+            engine=None, supply=None, positional=False, integer=False):
     """One real NumPy step on a fresh network; returns ({(key,var): [floats]}, built, raw)."""
     if built is None:
         built = build(spec)
     eng = engine or env.numpy_engine()
-    ic = np_inputs(built, val, scalar_shape, supply)
+    ic = np_inputs(built, val, scalar_shape, supply, integer)
     if positional:
         # the documented positional order of Network.step: init_conditions, engine, then the six options in OPTS order
         built.net.step(ic, eng, *[bool((opts or {}).get(o, False)) for o in OPTS], **P)
